@@ -4,6 +4,7 @@
 import FontVerif.Model.IntSetIterMod
 import FontVerif.Lemmas.IntSetDisc
 set_option linter.unusedVariables false
+set_option linter.unusedSimpArgs false
 namespace FontVerif.IntSet
 
 /-! ### unfolding `discontinuousRuns` -/
@@ -851,5 +852,194 @@ theorem dequeRun_isSome (sched : List Bool) (L : List Nat) :
           List.length_cons]
         rw [hlen, Nat.add_sub_add_right, Nat.add_min_add_right, List.replicate_succ]
         simp
+
+/-! ### connection with the sequence-level model -/
+
+theorem nmem_members_eq_contains {s : IntSet} (h : BInv s.set) (hi : s.inverted = true) (x : Nat) :
+    decide (x ∉ s.set.members) = s.contains x := by
+  rw [IntSet.contains, if_pos hi]
+  cases hc : s.set.contains x with
+  | true => simp [(BitSet.mem_members _ h x).2 hc]
+  | false =>
+    have : x ∉ s.set.members := fun hm => by
+      rw [BitSet.mem_members _ h x, hc] at hm; exact absurd hm (by simp)
+    simp [this]
+
+/-- the machine built by `IntSet::iter` owes exactly the mathematical member sequence -/
+theorem IntSet.iterMachine_sim {d : Domain} (hd : DomWF d) {s : IntSet} (h : IInvD d s) :
+    (s.iterMachine d).Sim (s.elems d) := by
+  unfold IntSet.iterMachine
+  by_cases hi : s.inverted = true
+  · rw [if_pos hi]
+    have := Iter.newBidirectional_sim (BitSet.members_asc _ h.1) (expand_asc hd.sorted)
+    have heq : (expand d.ranges).filter (fun x => decide (x ∉ s.set.members)) = s.elems d := by
+      unfold IntSet.elems
+      exact List.filter_congr (fun x _ => nmem_members_eq_contains h.1 hi x)
+    rw [heq] at this; exact this
+  · rw [if_neg hi]
+    simp only [Bool.not_eq_true] at hi
+    rw [elems_inclusive hd h hi]
+    exact Iter.newBidirectional_sim_none _
+
+theorem filter_ge_of_mem {D : List Nat} (hD : Asc D) {v : Nat} (hv : v ∈ D) :
+    D.filter (fun x => decide (v ≤ x)) = v :: D.filter (fun x => decide (x > v)) := by
+  induction D with
+  | nil => simp at hv
+  | cons a t ih =>
+    have hD' := asc_cons.1 hD
+    rcases List.mem_cons.1 hv with he | hv'
+    · subst he
+      simp only [List.filter_cons, Nat.le_refl, decide_true, if_true, gt_iff_lt, Nat.lt_irrefl,
+        decide_false, Bool.false_eq_true, if_false]
+      congr 1
+      apply List.filter_congr
+      intro x hx
+      have := hD'.1 x hx
+      simp; omega
+    · have := hD'.1 v hv'
+      have h1 : ¬ v ≤ a := by omega
+      have h2 : ¬ a > v := by omega
+      simp only [List.filter_cons, h1, h2, decide_false, Bool.false_eq_true, if_false]
+      exact ih hD'.2 hv'
+
+/-- the machine built by `IntSet::iter_after(v)` (for a domain value `v`) owes exactly the members
+greater than `v` -/
+theorem IntSet.iterAfterMachine_simF {d : Domain} (hd : DomWF d) {s : IntSet} (h : IInvD d s)
+    {v : Nat} (hv : d.contains v = true) :
+    (s.iterAfterMachine d v).SimF ((s.elems d).filter (fun x => decide (x > v))) := by
+  unfold IntSet.iterAfterMachine
+  by_cases hi : s.inverted = true
+  · simp only [hi, if_true]
+    have hD := expand_asc hd.sorted
+    have hvD : v ∈ expand d.ranges := Domain.contains_iff_mem.1 hv
+    cases hmx : d.max? with
+    | none =>
+      have := Domain.ranges_nil_of_max hmx
+      rw [this] at hvD; simp [expand] at hvD
+    | some hi' =>
+      have hle : ∀ x ∈ expand d.ranges, x ≤ hi' :=
+        fun x hx => Domain.le_max hd hmx (Domain.contains_iff_mem.2 hx)
+      have hrange : ∀ a, orderedValuesRange (expand d.ranges) a hi' =
+          (expand d.ranges).filter (fun x => decide (a ≤ x)) := by
+        intro a
+        unfold orderedValuesRange
+        apply List.filter_congr
+        intro x hx
+        have := hle x hx
+        simp [this]
+      simp only [Option.map_some, Option.bind_some, popFront, hrange, filter_ge_of_mem hD hvD,
+        List.tail_cons]
+      -- the target, with the two filters commuted
+      have htarget : (s.elems d).filter (fun x => decide (x > v)) =
+          ((expand d.ranges).filter (fun x => decide (x > v))).filter
+            (fun x => decide (x ∉ s.set.members.filter (fun x => decide (x > v)))) := by
+        unfold IntSet.elems
+        rw [List.filter_filter, List.filter_filter]
+        apply List.filter_congr
+        intro x hx
+        rw [← nmem_members_eq_contains h.1 hi x]
+        by_cases hxv : x > v <;> simp [hxv]
+      cases hT : (expand d.ranges).filter (fun x => decide (x > v)) with
+      | nil =>
+        simp only [List.head?_nil]
+        rw [htarget, hT]
+        exact Iter.new_simF_none []
+      | cons mn T =>
+        simp only [List.head?_cons]
+        have hTasc : Asc (mn :: T) := by rw [← hT]; exact hD.filter _
+        have hmn : mn ∈ (expand d.ranges).filter (fun x => decide (x > v)) := by rw [hT]; simp
+        have hmnv : mn > v := by simpa using (List.mem_filter.1 hmn).2
+        have hsame : (expand d.ranges).filter (fun x => decide (mn ≤ x)) =
+            (expand d.ranges).filter (fun x => decide (x > v)) := by
+          apply List.filter_congr
+          intro x hx
+          by_cases hxv : x > v
+          · have hxT : x ∈ mn :: T := by rw [← hT]; exact List.mem_filter.2 ⟨hx, by simpa using hxv⟩
+            rcases List.mem_cons.1 hxT with he | hxT'
+            · simp [he]; omega
+            · have := (asc_cons.1 hTasc).1 x hxT'
+              simp [hxv]; omega
+          · simp [hxv]; omega
+        rw [hrange, hsame, htarget]
+        exact Iter.new_simF ((BitSet.members_asc _ h.1).filter _) (hD.filter _)
+  · simp only [hi, if_false, Bool.false_eq_true]
+    simp only [Bool.not_eq_true] at hi
+    rw [elems_inclusive hd h hi]
+    exact Iter.new_simF_none _
+
+
+/-- `IntSet::iter()`, `.rev()`, `iter_after(v)` as machines yield, item by item, the sequences of
+the abstract model — for every `k`, not only at exhaustion -/
+theorem IntSet.iterMachine_take {d : Domain} (hd : DomWF d) {s : IntSet} (h : IInvD d s) (k : Nat) :
+    Iter.take k (s.iterMachine d) = s.iterTake d k := by
+  rw [Iter.take_simF k (IntSet.iterMachine_sim hd h).1, IntSet.iterTake_eq hd h]
+
+theorem IntSet.iterMachine_takeBack {d : Domain} (hd : DomWF d) {s : IntSet} (h : IInvD d s)
+    (k : Nat) : Iter.takeBack k (s.iterMachine d) = s.iterBackTake d k := by
+  rw [Iter.takeBack_sim k (IntSet.iterMachine_sim hd h), IntSet.iterBackTake_eq hd h]
+
+theorem IntSet.iterAfterMachine_take {d : Domain} (hd : DomWF d) {s : IntSet} (h : IInvD d s)
+    {v : Nat} (hv : d.contains v = true) (k : Nat) :
+    Iter.take k (s.iterAfterMachine d v) = s.iterAfterTake d v k := by
+  rw [Iter.take_simF k (IntSet.iterAfterMachine_simF hd h hv), IntSet.iterAfterTake_eq hd h]
+
+/-- the `iter_after` construction at list level -/
+theorem Iter.new_after_simF {S D : List Nat} (hS : Asc S) (hD : Asc D) (v : Nat) :
+    (Iter.new (S.filter (fun x => decide (x > v))) (some (D.filter (fun x => decide (x > v))))).SimF
+      (D.filter (fun x => decide (x > v) && decide (x ∉ S))) := by
+  have := Iter.new_simF (hS.filter (fun x => decide (x > v))) (hD.filter (fun x => decide (x > v)))
+  have heq : (D.filter (fun x => decide (x > v))).filter
+        (fun x => decide (x ∉ S.filter (fun x => decide (x > v)))) =
+      D.filter (fun x => decide (x > v) && decide (x ∉ S)) := by
+    rw [List.filter_filter]
+    apply List.filter_congr
+    intro x _
+    by_cases hxv : x > v <;> simp [hxv]
+  rw [heq] at this; exact this
+
+/-! ### double-ended consistency -/
+
+theorem asc_nodup {l : List Nat} (h : Asc l) : l.Nodup :=
+  List.Pairwise.imp (fun hab => Nat.ne_of_lt hab) h
+
+/-- any interleaving of `next` / `next_back` on a machine that owes `L` behaves like the reference
+deque on `L`; spelled out: (1) the calls are answered in order; (2) what the `next` calls returned,
+what is still owed, and what the `next_back` calls returned (reversed) partition `L` in order;
+(3) the first `min |sched| |L|` calls return `Some`, every later call returns `None` -/
+theorem Iter.schedule_consistent {it : Iter} {L : List Nat} (h : it.Sim L) (sched : List Bool) :
+    it.runSchedule sched = dequeRun sched L ∧
+    (it.runSchedule sched).map (·.1) = sched ∧
+    fronts (it.runSchedule sched) ++ dequeRest sched L ++ (backs (it.runSchedule sched)).reverse
+      = L ∧
+    (it.runSchedule sched).map (fun p => p.2.isSome) =
+      List.replicate (min sched.length L.length) true ++
+        List.replicate (sched.length - L.length) false := by
+  rw [Iter.runSchedule_sim sched h]
+  exact ⟨rfl, dequeRun_calls _ _, dequeRun_split _ _, dequeRun_isSome _ _⟩
+
+/-- consequences: forward results are a prefix of the members ascending, backward results a prefix
+of the members descending, and no value is ever returned twice -/
+theorem Iter.schedule_prefixes {it : Iter} {L : List Nat} (h : it.Sim L) (hL : Asc L)
+    (sched : List Bool) :
+    fronts (it.runSchedule sched) <+: L ∧ backs (it.runSchedule sched) <+: L.reverse ∧
+    (fronts (it.runSchedule sched) ++ backs (it.runSchedule sched)).Nodup ∧
+    (fronts (it.runSchedule sched)).length + (backs (it.runSchedule sched)).length ≤ L.length := by
+  have hs := (Iter.schedule_consistent h sched).2.2.1
+  generalize fronts (it.runSchedule sched) = A at hs ⊢
+  generalize backs (it.runSchedule sched) = C at hs ⊢
+  generalize dequeRest sched L = B at hs
+  refine ⟨⟨B ++ C.reverse, by rw [← List.append_assoc]; exact hs⟩, ⟨B.reverse ++ A.reverse, ?_⟩,
+    ?_, ?_⟩
+  · rw [← hs]; simp
+  · have hN : (A ++ B ++ C.reverse).Nodup := by rw [hs]; exact asc_nodup hL
+    have hsub : (A ++ C.reverse).Sublist (A ++ B ++ C.reverse) := by
+      rw [List.append_assoc]
+      exact (List.Sublist.refl A).append (List.sublist_append_right B C.reverse)
+    have := hN.sublist hsub
+    rw [List.nodup_append] at this ⊢
+    refine ⟨this.1, ?_, fun a ha b hb => this.2.2 a ha b (by simpa using hb)⟩
+    exact List.pairwise_reverse.1 (List.Pairwise.imp (fun hab => Ne.symm hab) this.2.1)
+  · have := congrArg List.length hs
+    simp at this; omega
 
 end FontVerif.IntSet
